@@ -20,6 +20,7 @@
 package vfc19
 
 import (
+	"bufio"
 	"bytes"
 	"crypto/hmac"
 	"crypto/sha256"
@@ -28,7 +29,9 @@ import (
 	"encoding/json"
 	"fmt"
 	"math/rand"
+	"os"
 	"path/filepath"
+	"runtime/debug"
 	"sort"
 	"strings"
 	"sync"
@@ -209,6 +212,9 @@ type ClientObs struct {
 }
 
 type Client interface {
+	// Coarse: only the final outcome of the whole exchange is observable (AuthenticatedDo); the
+	// per-step results and the state are then not compared with the model (L1 still applies).
+	Coarse() bool
 	Start(initiate bool) (authz string, err error)
 	Deliver(kind string, val string) ClientObs // kind: "www" (WWW-Authenticate, 401) or "info" (Authentication-Info, 200)
 	Clone() Client                             // an independent copy in the same state (nil if unsupported)
@@ -278,17 +284,20 @@ type run struct {
 	lastChal string // b64 of the last minted challenge blob (what the attacker hands C as opaque)
 	lastTok  string
 
-	cli     Client
-	cliHost string
-	cliSent []string // challenge-server values C has sent in this session
-	cliFed  [][]byte // server public keys fed to C in this session
+	cli        Client
+	cliHost    string
+	cliSent    []string // challenge-server values C has sent in this session
+	cliFed     [][]byte // server public keys fed to C in this session
 	cliChalFed []string // challenge-client values fed to C in this session
-	cliRep  bool
+	cliRep     bool
 
-	walk, step int
-	prefix     []vfh.Op
-	budget     map[string]int
-	demand     int
+	walk, step    int
+	prefix        []vfh.Op
+	budget        map[string]int
+	demand        int
+	skipped       bool    // set when the current step could not be concretised
+	extras        []param // parameters the attacker may add although the server must not read them in this state
+	extraNotEquiv bool    // the extra challenge-server parameter changes the expected outcome
 }
 
 const aNonceStr = "QXR0YWNrZXJDaG9zZW5DaGFsbGVuZ2VfMDEyMzQ1Njc4OV8="
@@ -336,9 +345,29 @@ func (r *run) ledgerSigned(signer, kind string, chal, pub []byte, host string) (
 	}
 }
 
+// unobtainable: a term of the behaviour cannot be concretised because the code no longer follows the
+// model (an earlier step diverged); the step is skipped and the divergence recorded (L2).
+type unobtainable string
+
+func (r *run) skip(why string) {
+	r.skipped = true
+	r.res.Inc("steps_skipped", 1)
+	r.mismatch("L2:step-skipped", "a step of the behaviour cannot be executed after an earlier divergence: "+why, nil, nil)
+}
+
 // sigFor returns concrete bytes for the abstract signature [key, kind, ch, pub, host]; honest agents'
 // signatures that do not exist yet are produced by really running the honest agent (on demand).
-func (r *run) sigFor(t []any) ([]byte, bool) {
+func (r *run) sigFor(t []any) (sig []byte, has bool) {
+	defer func() {
+		if e := recover(); e != nil {
+			if u, ok := e.(unobtainable); ok {
+				r.skip(string(u))
+				sig, has = nil, false
+				return
+			}
+			panic(e)
+		}
+	}()
 	key, kind := t[0].(string), t[1].(string)
 	if key == "none" {
 		return nil, false
@@ -348,7 +377,7 @@ func (r *run) sigFor(t []any) ([]byte, bool) {
 		r.rnd.Read(b)
 		return b, true
 	}
-	abs := vfh.Canon(t)
+	abs := fmt.Sprint(t)
 	if s, ok := r.sigByAbs[abs]; ok {
 		return s, true
 	}
@@ -356,7 +385,6 @@ func (r *run) sigFor(t []any) ([]byte, bool) {
 	pubName, hostM := t[3].(string), t[4].(string)
 	pub := r.w.Keys.PubB[pubName]
 	host := r.host(hostM)
-	var sig []byte
 	switch {
 	case key == "kA":
 		var err error
@@ -370,13 +398,13 @@ func (r *run) sigFor(t []any) ([]byte, bool) {
 		r.demand++
 		c := r.sys.NewClient(host)
 		if _, err := c.Start(false); err != nil {
-			panic(err)
+			panic(unobtainable("honest client cannot start: " + err.Error()))
 		}
 		o := c.Deliver("www", fmt.Sprintf(`%s challenge-client="%s", public-key="%s", opaque="%s"`, Scheme, ch, B64(pub), "b3BhcXVl"))
 		p := ParseParams(o.Authz)
 		sig = unB64(p["sig"])
 		if o.Err != nil || sig == nil {
-			panic(fmt.Sprintf("honest client did not sign on demand: %v %q for %s after %s", o.Err, o.Authz, abs, vfh.Canon(r.prefix)))
+			panic(unobtainable(fmt.Sprintf("the honest client did not sign %s on demand: %v %q", abs, o.Err, o.Authz)))
 		}
 		r.addSig("kC", "cli", []byte(ch), pub, host, sig)
 	case kind == "srv" && (key == "kS" || key == "kS2"):
@@ -390,12 +418,12 @@ func (r *run) sigFor(t []any) ([]byte, bool) {
 		p := ParseParams(o.WWW)
 		sig = unB64(p["sig"])
 		if sig == nil {
-			panic(fmt.Sprintf("honest server did not sign on demand: %+v", o))
+			panic(unobtainable(fmt.Sprintf("the honest server did not sign %s on demand: %+v", abs, o)))
 		}
 		r.noteMint(srv, host, p, pub)
 		r.addSig(key, "srv", []byte(ch), pub, host, sig)
 	default:
-		panic("no way to obtain signature " + abs)
+		panic(unobtainable("no way to obtain signature " + abs))
 	}
 	r.sigByAbs[abs] = sig
 	return sig, true
@@ -602,36 +630,43 @@ func nonCanonicalB64(raw []byte) (string, bool) {
 
 // variants returns re-encodings of the request: reordered, re-separated, duplicated, re-based,
 // dropped parameters.
-func (r *run) variants(ps []param, withNewline bool) []variant {
-	var out []variant
-	rev := make([]param, len(ps))
-	for i := range ps {
-		rev[len(ps)-1-i] = ps[i]
+func (r *run) variants(ps []param, withNewline bool) []func() variant {
+	var out []func() variant
+	add := func(name string, equiv bool, hdr func() string) {
+		out = append(out, func() variant { return variant{name, hdr(), equiv} })
 	}
-	out = append(out, variant{"reversed", compose(rev), true})
-	sh := append([]param{}, ps...)
-	r.rnd.Shuffle(len(sh), func(i, j int) { sh[i], sh[j] = sh[j], sh[i] })
-	{
+	add("reversed", true, func() string {
+		rev := make([]param, len(ps))
+		for i := range ps {
+			rev[len(ps)-1-i] = ps[i]
+		}
+		return compose(rev)
+	})
+	seps := func() string {
+		sh := append([]param{}, ps...)
+		r.rnd.Shuffle(len(sh), func(i, j int) { sh[i], sh[j] = sh[j], sh[i] })
 		var sb strings.Builder
 		sb.WriteString(Scheme)
 		for _, p := range sh {
 			sb.WriteString([]string{" ", "  ", " , ", ",", ",,  "}[r.rnd.Intn(5)])
 			sb.WriteString(p.k + `="` + p.enc() + `"`)
 		}
-		out = append(out, variant{"separators", sb.String(), true})
-		// the code's parser refuses trailing separators (errInvalid): not equivalent, but must stay safe
-		out = append(out, variant{"trailing-separator", sb.String() + []string{" ", ",", " , "}[r.rnd.Intn(3)], false})
+		return sb.String()
 	}
-	out = append(out, variant{"other-scheme-first", "Basic Zm9vOmJhcg==, " + compose(ps), true})
-	out = append(out, variant{"unknown-param", compose(append([]param{{k: "realm", txt: "x"}}, append(append([]param{}, ps...), param{k: "nonce", txt: "1"})...)), true})
+	add("separators", true, seps)
+	// the code's parser refuses trailing separators (errInvalid): not equivalent, but must stay safe
+	add("trailing-separator", false, func() string { return seps() + []string{" ", ",", " , "}[r.rnd.Intn(3)] })
+	add("other-scheme-first", true, func() string { return "Basic Zm9vOmJhcg==, " + compose(ps) })
+	add("unknown-param", true, func() string {
+		return compose(append([]param{{k: "realm", txt: "x"}}, append(append([]param{}, ps...), param{k: "nonce", txt: "1"})...))
+	})
 	for i, p := range ps {
 		junk := param{k: p.k, txt: "AAAA"}
-		first := append(append(append([]param{}, ps[:i]...), junk), ps[i:]...)
-		out = append(out, variant{"dup-junk-first:" + p.k, compose(first), true}) // the last occurrence wins
-		last := append(append([]param{}, ps...), junk)
-		out = append(out, variant{"dup-junk-last:" + p.k, compose(last), false})
-		drop := append(append([]param{}, ps[:i]...), ps[i+1:]...)
-		out = append(out, variant{"drop:" + p.k, compose(drop), false})
+		add("dup-junk-first:"+p.k, true, func() string { // the last occurrence wins
+			return compose(append(append(append([]param{}, ps[:i]...), junk), ps[i:]...))
+		})
+		add("dup-junk-last:"+p.k, false, func() string { return compose(append(append([]param{}, ps...), junk)) })
+		add("drop:"+p.k, false, func() string { return compose(append(append([]param{}, ps[:i]...), ps[i+1:]...)) })
 		if p.raw != nil {
 			re := func(s string) string {
 				q := append([]param{}, ps...)
@@ -639,25 +674,29 @@ func (r *run) variants(ps []param, withNewline bool) []variant {
 				return compose(q)
 			}
 			if s, ok := nonCanonicalB64(p.raw); ok {
-				out = append(out, variant{"b64-trailing-bits:" + p.k, re(s), true})
+				add("b64-trailing-bits:"+p.k, true, func() string { return re(s) })
 			}
 			raws := base64.RawURLEncoding.EncodeToString(p.raw)
-			out = append(out, variant{"b64-nopad:" + p.k, re(raws), raws == B64(p.raw)})
+			add("b64-nopad:"+p.k, raws == B64(p.raw), func() string { return re(raws) })
 			std := base64.StdEncoding.EncodeToString(p.raw)
-			out = append(out, variant{"b64-std:" + p.k, re(std), std == B64(p.raw)})
+			add("b64-std:"+p.k, std == B64(p.raw), func() string { return re(std) })
 			if withNewline {
-				s := B64(p.raw)
-				out = append(out, variant{"b64-newline:" + p.k, re(s[:len(s)/2] + "\r\n" + s[len(s)/2:]), true})
+				add("b64-newline:"+p.k, true, func() string { s := B64(p.raw); return re(s[:len(s)/2] + "\r\n" + s[len(s)/2:]) })
 			}
-			out = append(out, variant{"b64-doubled:" + p.k, re(B64([]byte(B64(p.raw)))), false})
+			add("b64-doubled:"+p.k, false, func() string { return re(B64([]byte(B64(p.raw)))) })
 		}
-		q := append([]param{}, ps...)
-		hdr := compose(q)
-		out = append(out, variant{"unquoted:" + p.k, strings.Replace(hdr, p.k+`="`+p.enc()+`"`, p.k+"="+p.enc(), 1), false})
-		out = append(out, variant{"upper-key:" + p.k, strings.Replace(hdr, p.k+`="`, strings.ToUpper(p.k)+`="`, 1), false})
+		add("unquoted:"+p.k, false, func() string {
+			return strings.Replace(compose(ps), p.k+`="`+p.enc()+`"`, p.k+"="+p.enc(), 1)
+		})
+		add("upper-key:"+p.k, false, func() string { return strings.Replace(compose(ps), p.k+`="`, strings.ToUpper(p.k)+`="`, 1) })
 	}
-	out = append(out, variant{"scheme-lower", strings.Replace(compose(ps), Scheme, strings.ToLower(Scheme), 1), false})
-	out = append(out, variant{"twice", compose(ps) + ", " + compose(ps), true})
+	for _, x := range r.extras {
+		eq := x.k != "bearer" && x.k != "sig" && x.k != "opaque" && !(x.k == "challenge-server" && r.extraNotEquiv)
+		add("extra:"+x.k, eq, func() string { return compose(append(append([]param{}, ps...), x)) })
+		add("extra-first:"+x.k, eq, func() string { return compose(append([]param{x}, ps...)) })
+	}
+	add("scheme-lower", false, func() string { return strings.Replace(compose(ps), Scheme, strings.ToLower(Scheme), 1) })
+	add("twice", true, func() string { return compose(ps) + ", " + compose(ps) })
 	return out
 }
 
@@ -689,46 +728,73 @@ type altered struct {
 	b    []byte
 }
 
-func flips(b []byte, from, to int, allBits bool, rnd *rand.Rand) []altered {
-	var out []altered
-	for i := from; i < to && i < len(b); i++ {
-		if allBits {
-			for bit := 0; bit < 8; bit++ {
-				c := append([]byte{}, b...)
-				c[i] ^= 1 << bit
-				out = append(out, altered{fmt.Sprintf("flip[%d].%d", i, bit), c})
+// family is a lazily materialised, indexable list of alterations.
+type family struct {
+	n  int
+	at func(i int) altered
+}
+
+func cat(fs ...family) family {
+	n := 0
+	for _, f := range fs {
+		n += f.n
+	}
+	return family{n, func(i int) altered {
+		for _, f := range fs {
+			if i < f.n {
+				return f.at(i)
 			}
-		} else {
-			c := append([]byte{}, b...)
-			bit := rnd.Intn(8)
-			c[i] ^= 1 << bit
-			out = append(out, altered{fmt.Sprintf("flip[%d].%d", i, bit), c})
+			i -= f.n
 		}
-	}
-	return out
+		panic("family index")
+	}}
 }
 
-func truncs(b []byte) []altered {
-	var out []altered
-	for n := 0; n < len(b); n++ {
-		out = append(out, altered{fmt.Sprintf("trunc[%d]", n), append([]byte{}, b[:n]...)})
+func thunks(l []func() altered) family { return family{len(l), func(i int) altered { return l[i]() }} }
+
+// every bit of every byte in [from, to)
+func flips(b []byte, from, to int) family {
+	if to > len(b) {
+		to = len(b)
 	}
-	for n := 1; n < len(b) && n <= 40; n++ {
-		out = append(out, altered{fmt.Sprintf("behead[%d]", n), append([]byte{}, b[n:]...)})
+	if from > to {
+		from = to
 	}
-	return out
+	return family{(to - from) * 8, func(i int) altered {
+		c := append([]byte{}, b...)
+		c[from+i/8] ^= 1 << (i % 8)
+		return altered{fmt.Sprintf("flip[%d].%d", from+i/8, i%8), c}
+	}}
 }
 
-func exts(b []byte, rnd *rand.Rand) []altered {
-	var out []altered
-	for _, suf := range [][]byte{{0}, {0x20}, {'}'}, []byte(`{"is-token":true}`), []byte(`,"is-token":true}`), {0xff, 0xfe}, b} {
-		out = append(out, altered{fmt.Sprintf("ext[+%d]", len(suf)), append(append([]byte{}, b...), suf...)})
+func truncs(b []byte) family {
+	nb := len(b) - 1
+	if nb > 40 {
+		nb = 40
 	}
+	if nb < 0 {
+		nb = 0
+	}
+	return family{len(b) + nb, func(i int) altered {
+		if i < len(b) {
+			return altered{fmt.Sprintf("trunc[%d]", i), append([]byte{}, b[:i]...)}
+		}
+		n := i - len(b) + 1
+		return altered{fmt.Sprintf("behead[%d]", n), append([]byte{}, b[n:]...)}
+	}}
+}
+
+func exts(b []byte, rnd *rand.Rand) family {
+	sufs := [][]byte{{0}, {0x20}, {'}'}, []byte(`{"is-token":true}`), []byte(`,"is-token":true}`), {0xff, 0xfe}, b}
 	j := make([]byte, 1+rnd.Intn(16))
 	rnd.Read(j)
-	out = append(out, altered{fmt.Sprintf("ext[+rnd%d]", len(j)), append(append([]byte{}, b...), j...)})
-	out = append(out, altered{"prepend[0]", append([]byte{0}, b...)})
-	return out
+	sufs = append(sufs, j)
+	return family{len(sufs) + 1, func(i int) altered {
+		if i == len(sufs) {
+			return altered{"prepend[0]", append([]byte{0}, b...)}
+		}
+		return altered{fmt.Sprintf("ext[%d:+%d]", i, len(sufs[i])), append(append([]byte{}, b...), sufs[i]...)}
+	}}
 }
 
 var fieldOrder = []string{"is-token", "client-public-key", "peer-id", "challenge-client", "hostname", "created-time"}
@@ -759,18 +825,18 @@ func jstr(s string) json.RawMessage { b, _ := json.Marshal(s); return b }
 
 // semantic returns well-formed blobs in which one field of the MAC'd state is changed; the MAC is
 // kept, recomputed under the attacker's own secret, zeroed, or dropped.
-func (r *run) semantic(raw []byte, field string) []altered {
+func (r *run) semantic(raw []byte, field string) family {
 	if len(raw) < 32 {
-		return nil
+		return family{}
 	}
 	mac, js := raw[:32], raw[32:]
 	var m map[string]json.RawMessage
 	if err := json.Unmarshal(js, &m); err != nil {
-		return nil
+		return family{}
 	}
 	if !bytes.Equal(remarshal(m), js) {
 		r.mismatch("L2:opaque-layout", "the harness cannot reproduce the blob's JSON layout", string(js), string(remarshal(m)))
-		return nil
+		return family{}
 	}
 	set := func(k string, v json.RawMessage) map[string]json.RawMessage {
 		c := map[string]json.RawMessage{}
@@ -807,9 +873,14 @@ func (r *run) semantic(raw []byte, field string) []altered {
 		ms = append(ms, set("peer-id", nil))
 	case "o.ch":
 		ms = append(ms, set("challenge-client", jstr(aNonceStr)), set("challenge-client", nil))
-		for _, n := range r.nonce {
-			ms = append(ms, set("challenge-client", jstr(n)))
-			break
+		if len(r.nonce) > 0 { // another challenge of this behaviour (the lowest numbered, for determinism)
+			lo := -1
+			for k := range r.nonce {
+				if lo < 0 || k < lo {
+					lo = k
+				}
+			}
+			ms = append(ms, set("challenge-client", jstr(r.nonce[lo])))
 		}
 	case "o.host":
 		for _, h := range []string{"h1", "h2"} {
@@ -822,26 +893,35 @@ func (r *run) semantic(raw []byte, field string) []altered {
 			ms = append(ms, set("created-time", tb))
 		}
 	}
-	var out []altered
 	akey := []byte("attacker-hmac-secret-0123456789abcdef")
-	for i, c := range ms {
-		nj := remarshal(c)
-		if bytes.Equal(nj, js) {
-			continue
+	var njs [][]byte
+	for _, c := range ms {
+		if nj := remarshal(c); !bytes.Equal(nj, js) {
+			njs = append(njs, nj)
 		}
-		out = append(out, altered{fmt.Sprintf("%s#%d/mac-kept", field, i), append(append([]byte{}, mac...), nj...)})
-		h := hmac.New(sha256.New, akey)
-		h.Write(nj)
-		out = append(out, altered{fmt.Sprintf("%s#%d/mac-attacker", field, i), append(h.Sum(nil), nj...)})
-		out = append(out, altered{fmt.Sprintf("%s#%d/mac-zero", field, i), append(make([]byte, 32), nj...)})
-		out = append(out, altered{fmt.Sprintf("%s#%d/mac-none", field, i), nj})
-		// a MAC keyed with public data an implementation might wrongly use
-		h2 := hmac.New(sha256.New, nil)
-		h2.Write(nj)
-		out = append(out, altered{fmt.Sprintf("%s#%d/mac-emptykey", field, i), append(h2.Sum(nil), nj...)})
-		out = append(out, altered{fmt.Sprintf("%s#%d/sha256", field, i), append(sha256Sum(nj), nj...)})
 	}
-	return out
+	const nmac = 6
+	return family{len(njs) * nmac, func(i int) altered {
+		nj := njs[i/nmac]
+		tag := fmt.Sprintf("%s#%d", field, i/nmac)
+		switch i % nmac {
+		case 0:
+			return altered{tag + "/mac-kept", append(append([]byte{}, mac...), nj...)}
+		case 1:
+			h := hmac.New(sha256.New, akey)
+			h.Write(nj)
+			return altered{tag + "/mac-attacker", append(h.Sum(nil), nj...)}
+		case 2:
+			return altered{tag + "/mac-zero", append(make([]byte, 32), nj...)}
+		case 3:
+			return altered{tag + "/mac-none", nj}
+		case 4: // a MAC keyed with public data an implementation might wrongly use
+			h := hmac.New(sha256.New, nil)
+			h.Write(nj)
+			return altered{tag + "/mac-emptykey", append(h.Sum(nil), nj...)}
+		}
+		return altered{tag + "/sha256", append(sha256Sum(nj), nj...)}
+	}}
 }
 
 func sha256Sum(b []byte) []byte { s := sha256.Sum256(b); return s[:] }
@@ -855,45 +935,43 @@ func (r *run) full(class string, n int) bool {
 	return true
 }
 
-func sample(a []altered, n int, rnd *rand.Rand) []altered {
-	if len(a) <= n {
-		return a
-	}
-	out := make([]altered, 0, n)
-	for _, i := range rnd.Perm(len(a))[:n] {
-		out = append(out, a[i])
-	}
-	return out
-}
-
-// alterations of one decoded field for abstract alteration f.
+// alterations of one decoded field for abstract alteration f: the whole family while the budget of
+// full sweeps for this class of edge lasts, a few random members afterwards.
 func (r *run) alterations(raw []byte, f string, bkind string) []altered {
-	thorough := vfh.Thorough()
 	nfull := 2
-	if thorough {
+	if vfh.Thorough() {
 		nfull = 8
 	}
-	cls := f + "/" + bkind
-	var out []altered
+	var fam family
 	switch {
 	case f == "o.mac":
-		out = flips(raw, 0, 32, true, r.rnd)
+		fam = flips(raw, 0, 32)
 	case strings.HasPrefix(f, "o.") && f != "o.trunc" && f != "o.ext":
-		out = append(r.semantic(raw, f), flips(raw, 32, len(raw), true, r.rnd)...)
+		fam = cat(r.semantic(raw, f), flips(raw, 32, len(raw)))
 	case f == "o.trunc" || f == "sig.trunc":
-		out = truncs(raw)
+		fam = truncs(raw)
 	case f == "o.ext" || f == "sig.ext":
-		out = exts(raw, r.rnd)
+		fam = exts(raw, r.rnd)
 	case f == "sig" || f == "pk":
-		out = flips(raw, 0, len(raw), true, r.rnd)
+		fam = flips(raw, 0, len(raw))
 	}
+	k := 4
 	if r.lite {
-		return sample(out, 6, r.rnd)
+		k = 3
+	} else if r.full(f+"/"+bkind, nfull) {
+		k = fam.n
 	}
-	if r.full(cls, nfull) {
+	var out []altered
+	if k >= fam.n {
+		for i := 0; i < fam.n; i++ {
+			out = append(out, fam.at(i))
+		}
 		return out
 	}
-	return sample(out, 4, r.rnd)
+	for j := 0; j < k; j++ {
+		out = append(out, fam.at(r.rnd.Intn(fam.n)))
+	}
+	return out
 }
 
 // ---------------------------------------------------------------------------------------------
@@ -962,7 +1040,7 @@ func (r *run) doServerOp(op vfh.Op, post []any) {
 			return
 		}
 		ot := op.L("o")
-		r.blobs[vfh.Canon(ot)] = b
+		r.blobs[fmt.Sprint(ot)] = b
 		r.nonce[int(ot[4].(float64))] = p["challenge-client"]
 		r.lastChal = b.b64
 		if !bytes.Equal(unB64(p["public-key"]), r.w.SrvPubB(srv)) {
@@ -974,22 +1052,26 @@ func (r *run) doServerOp(op vfh.Op, post []any) {
 				r.mismatch("L2:server-signature", "the server's signature does not verify over (challenge-server, client-public-key, hostname)", "valid", fmt.Sprint(err))
 			}
 			r.addSig(r.w.SrvKey[srv], "srv", []byte(chS), cpk, host, sig)
-			r.sigByAbs[vfh.Canon(op.L("sig"))] = sig
+			r.sigByAbs[fmt.Sprint(op.L("sig"))] = sig
 		} else if p["sig"] != "" {
 			r.mismatch("L2:server-signature", "signature in a server-initiated challenge", "", p["sig"])
 		}
 	case "verify", "bearer":
 		ot := op.L("o")
-		b := r.blobs[vfh.Canon(ot)]
+		b := r.blobs[fmt.Sprint(ot)]
 		if b == nil {
-			panic("unknown blob " + vfh.Canon(ot))
+			r.skip("blob " + fmt.Sprint(ot) + " was never issued")
+			return
 		}
 		var ps []param
 		var chS string
 		if name == "verify" {
 			sig, has := r.sigFor(op.L("sig"))
 			if !has {
-				panic("verify without signature")
+				if !r.skipped {
+					r.skip("verify without signature")
+				}
+				return
 			}
 			ps = append(ps, param{k: "opaque", raw: b.raw}, param{k: "sig", raw: sig})
 			if pk := op.S("pk"); pk != "none" {
@@ -1001,6 +1083,24 @@ func (r *run) doServerOp(op vfh.Op, post []any) {
 			}
 		} else {
 			ps = append(ps, param{k: "bearer", raw: b.raw})
+		}
+		r.extras, r.extraNotEquiv = nil, false
+		if name == "verify" {
+			// the challenge the presented signature was made over, as a parameter; a token the attacker holds
+			if ch, _ := r.nonceOf(int(op.L("sig")[2].(float64))); ch != "" {
+				r.extras = append(r.extras, param{k: "challenge-client", txt: ch})
+			}
+			if r.lastTok != "" {
+				r.extras = append(r.extras, param{k: "bearer", txt: r.lastTok})
+			}
+			if op.I("c") == 0 {
+				// a challenge for the server to sign: needed (and changing the outcome) in the server-initiated
+				// flow only; with a blob minted for a client key it must make no difference
+				r.extras = append(r.extras, param{k: "challenge-server", txt: aNonceStr})
+				r.extraNotEquiv = b.kind != "ci"
+			}
+		} else if r.lastChal != "" {
+			r.extras = append(r.extras, param{k: "opaque", txt: r.lastChal}, param{k: "challenge-client", txt: aNonceStr})
 		}
 		alt := op.S("alt")
 		wantRes, wantPeer := op.S("res"), op.S("peer")
@@ -1033,7 +1133,7 @@ func (r *run) doServerOp(op vfh.Op, post []any) {
 						// the token term of the model: [srv, TRUE, none, peer, 0, host, now]
 						now := int(post[0].(float64))
 						tk := []any{srv, true, "none", r.w.Keys.nameOfID(o.Peer), 0, hostM, now}
-						key := vfh.Canon(tk)
+						key := fmt.Sprint(tk)
 						raw := unB64(p["bearer"])
 						if old, ok := r.blobs[key]; ok {
 							if !bytes.Equal(old.raw, raw) {
@@ -1051,7 +1151,7 @@ func (r *run) doServerOp(op vfh.Op, post []any) {
 							r.mismatch("L2:server-signature", "the server's signature in Authentication-Info does not verify", "valid", fmt.Sprint(err))
 						}
 						r.addSig(r.w.SrvKey[srv], "srv", []byte(chS), pkb, host, sig)
-						r.sigByAbs[vfh.Canon([]any{r.w.SrvKey[srv], "srv", op.I("c"), op.S("pk"), hostM})] = sig
+						r.sigByAbs[fmt.Sprint([]any{r.w.SrvKey[srv], "srv", op.I("c"), op.S("pk"), hostM})] = sig
 					}
 				}
 				r.timeProbes(srv, host, name, ps, b)
@@ -1130,6 +1230,16 @@ func (r *run) timeProbes(srv, host, name string, ps []param, b *blob) {
 	}
 }
 
+func (r *run) extrasDecoded() []param {
+	var out []param
+	for _, x := range r.extras {
+		if x.k == "bearer" || x.k == "opaque" {
+			out = append(out, param{k: x.k, raw: unB64(x.txt)})
+		}
+	}
+	return out
+}
+
 // reencodings sends the same request in other encodings.
 func (r *run) reencodings(srv, host, name string, ps []param, base ServerObs) {
 	vs := r.variants(ps, !r.lite)
@@ -1141,8 +1251,8 @@ func (r *run) reencodings(srv, host, name string, ps []param, base ServerObs) {
 		k = 1
 	}
 	for _, i := range r.rnd.Perm(len(vs))[:min(k, len(vs))] {
-		v := vs[i]
-		o := r.serverRequest(srv, host, v.hdr, candsOf(ps), "re-encoded: "+v.name)
+		v := vs[i]()
+		o := r.serverRequest(srv, host, v.hdr, candsOf(ps, r.extrasDecoded()...), "re-encoded: "+v.name)
 		r.res.Inc("reencoded_requests", 1)
 		if v.equiv && (o.Accepted != base.Accepted || (o.Accepted && o.Peer != base.Peer)) {
 			r.mismatch("L2:reencoding:"+strings.SplitN(v.name, ":", 2)[0], "an equivalent encoding of the request has another outcome: "+o.Detail,
@@ -1216,12 +1326,16 @@ func (r *run) doClientOp(op vfh.Op, post []any) {
 		}
 	case "cwww", "cinfo":
 		if r.cli == nil {
-			panic("client step without session")
+			r.skip("client step without session")
+			return
 		}
 		var ps []param
 		kind := "www"
 		sigT := op.L("sig")
 		sig, hasSig := r.sigFor(sigT)
+		if r.skipped {
+			return
+		}
 		var pkb []byte
 		if op.Name() == "cwww" {
 			ch, _ := r.nonceOf(op.I("c"))
@@ -1324,14 +1438,14 @@ func (r *run) doClientOp(op vfh.Op, post []any) {
 				}
 			}
 			if s := ParseParams(o.Authz)["sig"]; s != "" && op.Has("signed") {
-				r.sigByAbs[vfh.Canon(op.L("signed"))] = unB64(s)
+				r.sigByAbs[fmt.Sprint(op.L("signed"))] = unB64(s)
 			}
 		}
 		// L1: whenever the client reports a server ID, the ledger must justify it
 		if o.Reported {
 			var presented []byte
-			if hasSig && !r.cliRep {
-				presented = sig
+			if hasSig && !r.cliRep && !r.cli.Coarse() {
+				presented = sig // the step that makes the client report carries the proving signature
 			}
 			if ok, cls := r.clientJustified(o.Peer, presented); !ok {
 				r.mismatch(cls, "the client reports server "+r.w.Keys.nameOfID(o.Peer)+" although that key never signed the client's challenge, the client's key and hostname "+r.cliHost,
@@ -1341,6 +1455,9 @@ func (r *run) doClientOp(op vfh.Op, post []any) {
 		}
 		want := op.S("res")
 		r.res.Case(fmt.Sprintf("%s|%s|%s", op.Name(), want, got))
+		if r.cli.Coarse() {
+			return
+		}
 		if want != got {
 			cls := "L2:client-result"
 			r.mismatch(cls, fmt.Sprintf("client step result differs from the model (err=%v)", o.Err), want, got)
@@ -1365,7 +1482,7 @@ func (r *run) reset() {
 
 // Options of a replay.
 type Options struct {
-	Lite     bool // no full byte sweeps (used at the handler level)
+	Lite     bool // no full byte sweeps, honest signatures on demand allowed everywhere (used at the handler level, where a failed client exchange is over)
 	MaxWalks int  // 0 = all
 	Profile  string
 }
@@ -1386,11 +1503,23 @@ func Replay(mk func(*World) System, res *vfh.Result, opt Options) error {
 		return err
 	}
 	budget := map[string]int{}
+	defer debug.SetGCPercent(debug.SetGCPercent(400))
 	for _, f := range files {
-		hdr, walks, err := vfh.LoadWalks(f)
+		fh, err := os.Open(f)
 		if err != nil {
+			return err
+		}
+		defer fh.Close()
+		sc := bufio.NewScanner(fh)
+		sc.Buffer(make([]byte, 1<<20), 1<<30)
+		if !sc.Scan() {
+			return fmt.Errorf("%s: empty", f)
+		}
+		var hd vfh.Header
+		if err := json.Unmarshal(sc.Bytes(), &hd); err != nil {
 			return fmt.Errorf("%s: %v", f, err)
 		}
+		hdr := hd.Header
 		cm, _ := hdr["conf"].(map[string]any)
 		if cm == nil {
 			return fmt.Errorf("%s: no conf in header", f)
@@ -1404,16 +1533,24 @@ func Replay(mk func(*World) System, res *vfh.Result, opt Options) error {
 		if conf.S2SameKey {
 			w.SrvKey["S2"] = "kS"
 		}
-		if opt.MaxWalks > 0 && len(walks) > opt.MaxWalks {
-			walks = walks[:opt.MaxWalks]
-		}
-		for _, wk := range walks {
+		for nw := 0; sc.Scan(); nw++ {
+			if len(sc.Bytes()) == 0 {
+				continue
+			}
+			if opt.MaxWalks > 0 && nw >= opt.MaxWalks {
+				break
+			}
+			var wk vfh.Walk
+			if err := json.Unmarshal(sc.Bytes(), &wk); err != nil {
+				return fmt.Errorf("%s: %v", f, err)
+			}
 			sys := mk(w)
 			r := &run{w: w, sys: sys, res: res, rnd: rand.New(rand.NewSource(vfh.Seed()*104729 + int64(wk.Walk))), conf: conf, unit: unit,
 				file: filepath.Base(f), lite: opt.Lite, budget: budget, walk: wk.Walk}
 			r.reset()
 			for i, st := range wk.Steps {
 				r.step = i
+				r.skipped = false
 				r.prefix = append(r.prefix, st.Op)
 				var post []any
 				if err := json.Unmarshal(st.State, &post); err != nil || len(post) != 6 {
@@ -1432,13 +1569,19 @@ func Replay(mk func(*World) System, res *vfh.Result, opt Options) error {
 				res.Count(0, 1)
 			}
 			res.Count(1, 0)
+			if c, ok := sys.(interface{ Close() }); ok {
+				c.Close()
+			}
 			res.Inc("on_demand_signatures", r.demand)
-			if conf.Explicit && r.demand > 0 {
+			if conf.Explicit && r.demand > 0 && !opt.Lite {
 				return fmt.Errorf("%s walk %d: %d honest signatures had to be produced on demand in an explicit instance", f, wk.Walk, r.demand)
 			}
 			if wk.Walk == 0 && len(wk.Steps) > 0 {
 				res.Sample(map[string]any{"instance": conf.Name, "system": sys.Name(), "keys": profile, "first_steps": wk.Steps[:min(6, len(wk.Steps))]})
 			}
+		}
+		if err := sc.Err(); err != nil {
+			return err
 		}
 	}
 	return nil
